@@ -14,7 +14,7 @@ EXHAUSTIVE = {"fault position: every line of the sampled good files": True}
 
 
 def generate(R, tier):
-    n = 400 if tier == "quick" else 25000
+    n = 800 if tier == "quick" else 25000
     for i in range(n):
         A = D.valid_file(R, small=True)
         B = D.valid_file(R, small=True)
@@ -85,10 +85,34 @@ def impl_init():
 
     import sys
     import threading
+    from pyp0f.fingerprint import fingerprint_mtu
+    from pyp0f.options import Options
+    from harness import wire as W
+    PKT = U.scapy_from_spec({"flags": 2, "opts": W.o_mss(1460)})          # a SYN whose MTU is 1500
+
+    def fp_view(d):
+        """What a fingerprint call sees through Options(database=d)."""
+        try:
+            r = fingerprint_mtu(PKT, options=Options(database=d))
+            return ["ok", None if r.match is None else r.match.line_number]
+        except DatabaseError:
+            return ["DatabaseError"]
+
+    def expected_view(dump):
+        """... and what it must see, given the records the database holds: no [mtu] section loaded -> DatabaseError,
+        else the earliest record with MTU 1500, else no match."""
+        if dump["mtu"] is None:
+            return ["DatabaseError"]
+        for rec in dump["mtu"]:
+            if rec["sig"] == 1500:
+                return ["ok", rec["line"]]
+        return ["ok", None]
 
     def impl(c):
         db = Database()
         versions = {0: U.dump_db(db)}
+        if fp_view(db) != ["DatabaseError"]:
+            return [[{"fingerprint_before_any_load_did_not_raise_DatabaseError": fp_view(db)}, []]]
         torn = []
         races = []
         stop = threading.Event()
@@ -165,6 +189,8 @@ def impl_init():
             elif after != versions[visible]:
                 res["failed_load_changed_db"] = True
             snap()
+            if fp_view(db) != expected_view(after):
+                res["fingerprint_sees_other_contents_than_the_database_holds"] = [fp_view(db), expected_view(after)]
             out.append([res, obs])
         if reader is not None:
             stop.set()
